@@ -49,7 +49,7 @@ MUTANTS = {
     "r03": ("C03", [sub("ro.py", "    resolver.mro()\n    return not resolver.had_inconsistency", "    return not resolver.had_inconsistency")]),
     "r01": ("C01", [("revert", "888af04")]), "r13": ("C13", [("revert", "604cba1")]), "r15": ("C15", [("revert", "d0b9d15")]),
     "r18": ("C18", [("revert", "f2168a3")]), "r14": ("C14", [("revert", "001e42e")]), "r10": ("C10", [("revert", "001e42e")]), "r18b": ("C18", [("revert", "612b202")]), "r18c": ("C17", [("revert", "612b202")]), "r16": ("C16", [("revert", "b1af53e")]), "r11py": ("C11", [sub("adapter.py", "        for sub in tuple(self._v_subregistries.keys()):", "        for sub in self._v_subregistries.keys():")]),   # (half of bf116ff: the other half was rewritten by 90f8c8c)
-    "r06": ("C06", [("revert", "462a8cb"), ("revert", "dbf66b8")]), "r06c": ("C06", [("revert", "462a8cb")]), "r05": ("C05", [("revert", "f6085d3")]), "r11c": ("C11", [("revert", "fdd60f1"), ("revert", "eb449ba")]),
+    "r06": ("C06", [("revert", "462a8cb"), ("revert", "dbf66b8")]), "r06c": ("C06", [("revert", "462a8cb")]), "r05": ("C05", [("revert", "f6085d3")]), "r11c": ("C11", [("patchfile", "r11c.diff")]),   # revert of fdd60f1 + eb449ba, kept as a patch (later repairs touch the same function)
     "r06b": ("C05", [("revert", "462a8cb"), ("revert", "dbf66b8")]),
     "r11i": ("C11", [("revert", "fae71fe")]),
     "r11h": ("C11", [("revert", "fdd60f1")]), "r11g": ("C11", [("revert", "ae73461")]), "r11s": ("C11", [("revert", "25fbf79")]),
@@ -81,6 +81,10 @@ def apply(mid, d):
     if mid in MUTANTS:
         prop, edits = MUTANTS[mid]
         for e in edits:
+            if e[0] == "patchfile":
+                r = subprocess.run(["patch", "-p1", "-s", "-i", os.path.join(VERIF, "tools", "mutants", e[1])], cwd=d, capture_output=True, text=True)
+                assert r.returncode == 0, (mid, r.stdout, r.stderr)
+                continue
             if e[0] == "revert":
                 diff = subprocess.run(["git", "-C", REPO, "show", e[1]], capture_output=True, text=True).stdout
                 r = subprocess.run(["patch", "-R", "-p1", "-s"], input=diff, cwd=d, capture_output=True, text=True)
